@@ -79,8 +79,17 @@ func rewriteManifest(cacheDir, d, rel string, chooseOld func(rel string) bool, c
 		must(err)
 		out = append(out, '\n')
 	}
-	return putObject(cacheDir, out)
+	nd := putObject(cacheDir, out)
+	rewrittenNew[nd] = true
+	if nd != d {
+		superseded = append(superseded, d)
+	}
+	return nd
 }
+
+// manifests replaced by a rewritten version: an old cache does not hold their current-format twins
+var superseded []string
+var rewrittenNew = map[string]bool{}
 
 func runOldSchema(o *opts) {
 	r := newRng(o.seed)
@@ -118,7 +127,13 @@ func runOldSchema(o *opts) {
 			}
 			return rr.chance(1, 2)
 		}
+		superseded, rewrittenNew = nil, map[string]bool{}
 		newTop := rewriteManifest(p.CacheDir, rec.Out[0].Cs, "", choose, &nOld)
+		for _, d := range superseded {
+			if !rewrittenNew[d] {
+				os.Remove(cachePathOf(p.CacheDir, d))
+			}
+		}
 		rec.Out[0].Cs = newTop
 		p.writeStage("s.yaml", rec)
 		s.count(fmt.Sprintf("old-manifests:%d", nOld))
